@@ -184,8 +184,15 @@ func Text(r *core.Rand) string {
 	default:
 		n = r.Intn(40)
 	}
+	if r.Chance(1, 12) {
+		n = r.Pick(31, 32, 33, 34, 63, 64, 65, 127, 128, 129) // lengths at which a formatter might abbreviate
+	}
 	b := make([]byte, n)
-	mode := r.Intn(4)
+	mode := r.Intn(7)
+	// octet classes of UTF-8: ASCII, continuation bytes, 2/3/4-byte lead bytes, invalid bytes
+	classes := [][2]int{{0x00, 0x00}, {0x01, 0x7F}, {0x80, 0xBF}, {0xC2, 0xDF}, {0xE0, 0xEF}, {0xF0, 0xF4}, {0xF5, 0xFF}, {0xC0, 0xC1}}
+	cl := classes[r.Intn(len(classes))]
+	constant := byte(cl[0] + r.Intn(cl[1]-cl[0]+1))
 	for i := range b {
 		switch mode {
 		case 0:
@@ -194,8 +201,14 @@ func Text(r *core.Rand) string {
 			b[i] = r.U8() // arbitrary octets incl. NUL and non-UTF-8
 		case 2:
 			b[i] = 0
-		default:
+		case 3:
 			b[i] = byte(0x20 + r.Intn(0x5f))
+		case 4:
+			b[i] = byte(cl[0] + r.Intn(cl[1]-cl[0]+1)) // every octet from one UTF-8 class
+		case 5:
+			b[i] = constant // one octet repeated
+		default: // valid multi-byte UTF-8 (possibly truncated by the length cap)
+			copy(b[i:], string(rune(r.Pick(0xE9, 0x20AC, 0x1F600, 0x7FF, 0x800, 0xFFFD, 0x10FFFF))))
 		}
 	}
 	return string(b)
